@@ -42,8 +42,10 @@ func VC18() {
 		}
 	case "alu_mi":
 		sz := c01Sizes[vrt.Choose("size", 3)]
-		shapes := []MemSpec{{Base: "BX"}, {Base: "EBX"}, {Disp: 0x1234, HasDisp: true}}
-		mlens := [][2]int64{{1, 1}, {1, 1}, {3, 5}} // ModR/M+SIB+disp bytes in 16/32-bit addressing
+		shapes := []MemSpec{{Base: "BX"}, {Base: "EBX"}, {Disp: 0x1234, HasDisp: true},
+			{Base: "BP", Index: "SI"}, {Base: "BP", Index: "DI"}, {Base: "BX", Index: "SI"}, {Base: "SI"}, {Base: "BP"}, {Base: "EBX", Index: "ESI"}, {Base: "EBP"}}
+		// ModR/M+SIB+disp bytes in 16/32-bit addressing ([BP] and [EBP] need a disp8 of 0, [BP+SI] does not)
+		mlens := [][2]int64{{1, 1}, {1, 1}, {3, 5}, {1, 1}, {1, 1}, {1, 1}, {1, 1}, {2, 2}, {2, 2}, {2, 2}}
 		k := vrt.Choose("shape", len(shapes))
 		m := shapes[k]
 		m.SizeKw = kwOf(sz)
